@@ -595,10 +595,11 @@ class RangeDimension(Dimension):
     def ticks(self, ticks):
         if np.any(np.diff(ticks) < 0):
             raise ValueError("Ticks are not given in an ascending order.")
-        if self.has_link:
-            # unlick object and set ticks
-            self.remove_link()
+        had_link = self.has_link
         self._h5group.write_data("ticks", ticks)
+        if had_link:
+            # unlink object only once the new ticks are stored
+            self.remove_link()
 
     @property
     def label(self):
